@@ -67,6 +67,16 @@ P = {
  "C09": (True,
   PIPE + "C09 scenarios: 0-3 inspections from a catalogue of real shell commands (no-op, create/modify/delete, exit 1..255, effect then exit, killed by signal, missing executable, empty argv), final product directory equal to the last step's products or with one file added/removed/modified, with and without run directory (incl. missing/empty). Theorems: see evidence (layout order, exit 0, all-or-prefix execution being proved).",
   COMMON_NOTE + "What `sh` does for a catalogue command is assumed to be what the catalogue says (create/modify/delete/exit).", "Lean 4 proof over pipeline model + differential correspondence with real inspection commands", "DESIGN.md §5 C09"),
+ "C04": (True,
+  "Lean model of signing histories over symbolic signatures (Metablock.Sign, Envelope.Sign, SetPayload, VerifySignature, dump+load, mutation, corruption); theorems: sign-then-verify succeeds in both wrappers for every reachable state (under the stated no-stale-signature hypothesis), later signatures keep earlier verifications, verification succeeds only with a signature by that key's material over exactly the current signed bytes (hence fails after any content change and under any other key), the signed bytes are canonical JSON resp. the DSSE PAE. Every run replays ALL operation sequences up to length L plus random longer histories through the real library and the model, checks every signature the library emits with crypto/* over cjson/PAE bytes and offers crypto/*-made signatures to the library, across RSA-2048, P-224/256/384/521 and Ed25519.",
+  COMMON_NOTE + "The primitives themselves (RSA-PSS, ECDSA, Ed25519) are Go's crypto/*; perfect-signature abstraction in the model. Re-signing changed content with the SAME key id (stale first signature in the legacy wrapper) is excluded by hypothesis NoStale, see DESIGN.md.",
+  "Lean 4 proof (history invariants over symbolic signatures) + exhaustive/random differential histories with independent crypto",
+  "DESIGN.md §5 C04"),
+ "C15": (True,
+  "PARTIAL. Lean: every modelled operation returns ok / err / an EXPLICIT panic outcome; theorems show the panic outcomes unreachable for key construction, signature verification, signing histories, the rule interpreter and inspections (pipeline-wide theorem: see evidence), and all model functions are total by structural recursion (no unbounded loop). Every run compares outcome classes (ok/err/panic/hang, under recover and a deadline) of Sign/VerifySignature on degenerate key objects and of InTotoVerify on degenerate layouts and hostile link directories with the model, and additionally pushes byte-level mutations of metadata files through Load/Validate/Verify/Sign/Dump/InTotoVerify checking crash and hang freedom only (search support, not proof).",
+  COMMON_NOTE + "Not expressible in the model: memory exhaustion, stack overflow in encoding/json on pathological nesting (Go limits nesting to 10000), runtime faults outside the modelled panic sites; these are covered by the byte-mutation search only.",
+  "Lean 4 proof (explicit panic outcomes unreachable, totality) + outcome-class correspondence + byte-mutation crash search",
+  "DESIGN.md §5 C15"),
 }
 
 ALL = ["C%02d" % i for i in range(1, 21)]
